@@ -5,7 +5,7 @@ HOW IT READS (DESIGN §2.5a): SOURCE STRUCTURE located BY CONTENT — every meth
 * the dispatch on `<row>.type` by equality (if/elif chain, `match`, dispatch dict — literal or hoisted;
   the one with the most alternatives is the row-type dispatch, incidental comparisons such as
   `arg_def.type == "sheet"` have one),
-* `<row>.status == <constant>`  (the draft word),
+* `<row>.status == <constant>` / `<row>.status in (<constant>,)`  (the draft word),
 * `….get_sheets_by_name(<constant>)`  (the index sheet name).
 No private method name is looked up.  The row types are the distinct constants of an equality
 dispatch, i.e. a SET: emitted SORTED, compared up to order.
@@ -28,6 +28,8 @@ def tables() -> str:
     resolve = t1lib.Resolver(live.ContentIndexParser, live)
     types = sorted(t1lib.largest_group(t1lib.dispatch_groups(cls, _row_attr("type"), resolve), "dispatch on row.type"))
     status = t1lib.dispatch_keys(cls, _row_attr("status"), resolve)
+    # … or a membership test `<row>.status in (<words>)`
+    status += [w for c in t1lib.container_consts(cls, _row_attr("status"), resolve, ops=(ast.In,)) for w in c if w not in status]
     idx = set()
     for n in t1lib.find_all(cls, lambda n: isinstance(n, ast.Call) and isinstance(n.func, ast.Attribute) and n.func.attr == "get_sheets_by_name" and n.args):
         try:
